@@ -14,8 +14,10 @@ import (
 	"fmt"
 	"net"
 	"net/netip"
+	"runtime"
 	"strings"
 	"sync"
+	"sync/atomic"
 	"testing"
 	"time"
 
@@ -799,4 +801,57 @@ func runC05Shared(c C05Shared, info *kit.Info) *kit.Finding {
 func TestC05_Shared(t *testing.T) {
 	p := kit.Prop[C05Shared]{ID: "C05", Name: "Shared", Quick: 40, Thorough: 3000, Gen: genC05Shared, Run: runC05Shared}
 	p.Execute(t)
+}
+
+// ---- the first validations of a process ---------------------------------------------------------------
+// The very first destination checks of a process, made by several goroutines at the same instant (connections
+// arrive on several listeners as soon as the server is up): every forbidden address is refused from the start.
+// Run as a unit of its own (nothing in the process has used the validator before), also under the race detector.
+
+type C05First struct {
+	Workers int   `json:"workers"`
+	Seed    int64 `json:"seed"`
+}
+
+func TestC05_FirstUse(t *testing.T) {
+	var once sync.Once
+	p := kit.Prop[C05First]{ID: "C05", Name: "FirstUse", Quick: 1, Thorough: 1,
+		Gen: func(t *rapid.T) C05First {
+			return C05First{Workers: rapid.IntRange(4, 16).Draw(t, "workers"), Seed: rapid.Int64Range(1, 1<<40).Draw(t, "seed")}
+		},
+		Run: func(c C05First, info *kit.Info) *kit.Finding {
+			var f *kit.Finding
+			once.Do(func() { f = runC05First(c, info) }) // only the first case of a process is a first use
+			return f
+		}}
+	p.Execute(t)
+}
+
+func runC05First(c C05First, info *kit.Info) *kit.Finding {
+	forbidden := []string{"100.64.0.1", "100.127.255.254", "192.168.255.254", "172.16.0.1", "172.31.255.255", "10.0.0.1", "fd00::1", "fc00::1", "::ffff:192.168.1.1", "::ffff:100.64.0.1"}
+	var bad atomic.Pointer[kit.Finding]
+	var wg sync.WaitGroup
+	var ready atomic.Int32
+	start := make(chan struct{})
+	for w := 0; w < c.Workers; w++ {
+		wg.Add(1)
+		go func(w int) {
+			defer wg.Done()
+			ready.Add(1)
+			<-start
+			for k := 0; k < len(forbidden); k++ {
+				a := forbidden[(k+w+int(c.Seed))%len(forbidden)]
+				if err := onet.RequirePublicIP(net.ParseIP(a)); err == nil {
+					bad.CompareAndSwap(nil, kit.Violation("validator:accepts-forbidden", "among the first destination checks of the process, made by %d goroutines at once, RequirePublicIP(%s) = nil", c.Workers, a))
+				}
+			}
+		}(w)
+	}
+	for ready.Load() < int32(c.Workers) {
+		runtime.Gosched()
+	}
+	close(start)
+	wg.Wait()
+	info.NonTrivial, info.Steps = true, c.Workers*len(forbidden)
+	return bad.Load()
 }
